@@ -1,16 +1,18 @@
-(* C18 — the external-angle paths against the Snell contract of C13 (Proofs/C13_snell.v over Gen/Beam.v):
-   the abstract `snell_internal` oracle of the generated setters is instantiated with C13's generated
-   calc_internal_theta_from_external (Nelder-Mead `nm` and the crystal's index as oracles), so that the clause reads:
-   the stored internal angle th satisfies |sin e - n(th) sin th| <= r (r = the optimiser's residual) and is what the view shows. *)
+(* C18 — the external-angle paths against the Snell search as generated for C13 (Gen/Beam.v: calc_internal_theta_from_external_gen,
+   snell_cost_gen; Nelder-Mead `nm` and the crystal's index as oracles).  The abstract `snell_internal` oracle of the generated setters
+   is instantiated with that generated function.  For BOTH signs of the requested angle v (e = v deg):
+   the optimiser searches the magnitude th in [0, pi/2] of the internal angle on the side sign(e) of the azimuth plane; the stored
+   angle is sign(e) * th, it satisfies | |sin e| - n(sign(e) th) sin th | <= r (r = the optimiser's residual), and the view shows it.
+   This file uses only the generated definitions (no lemma from the C13 proof files). *)
 From Coq Require Import Reals Lra List String.
 From SpdVerif Require Import Base.Rx Base.PolingBase Gen.Poling Gen.Sweep Spec.SweepPaths Model.Sweep
   Proofs.C18_angles Proofs.C18_table Proofs.C18_frame.
-From SpdVerif Require Model.Optics Model.Fresnel Gen.Beam Model.Beam Proofs.C02_frame Proofs.C13_snell.
+From SpdVerif Require Model.Optics Model.Fresnel Gen.Beam.
 Import ListNotations.
 Local Open Scope R_scope.
 
 Section External.
-(* argmin's Nelder-Mead as wrapped by math::nelder_mead_1d (C13's oracle) *)
+(* argmin's Nelder-Mead as wrapped by math::nelder_mead_1d: cost, two seeds, max iterations, bounds, tolerance *)
 Variable nm : (R -> R) -> R -> R -> R -> R -> R -> R -> R.
 (* crystal_setup.index_along(beam.vacuum_wavelength(), direction, beam.polarization()) *)
 Variable index : crystal_setup -> beam -> Model.Optics.vec -> R.
@@ -23,66 +25,75 @@ Definition to13 (b : beam) : Gen.Beam.beam :=
      Gen.Beam.b_theta := b_theta b; Gen.Beam.b_phi := b_phi b;
      Gen.Beam.b_direction := Model.Fresnel.polar_dir (b_phi b) (b_theta b) |}.
 
-(* Beam::calc_internal_theta_from_external, as generated for C13 *)
+(* Beam::calc_internal_theta_from_external, as generated *)
 Definition snell_of (bm : beam) (e : R) (c : crystal_setup) : R :=
-  Proofs.C13_snell.snell_inv_of nm (index c bm) (to13 bm) e.
+  Gen.Beam.calc_internal_theta_from_external_gen nm (index c bm) (to13 bm) e.
 
-Lemma to13_inv b : 0 <= b_phi b < 2 * PI -> - PI < b_theta b <= PI -> Model.Beam.beam_inv (to13 b).
+(* the magnitude the optimiser returns for external angle e *)
+Definition theta_mag (n_along : Model.Optics.vec -> R) (s : Gen.Beam.beam) (e : R) : R :=
+  nm (Gen.Beam.snell_cost_gen n_along s e) (Rabs e) (Rabs e + 1) 100 0 (PI / 2) 1e-12.
+
+Lemma snell_of_is_signed_magnitude bm e c :
+  snell_of bm e c = signum e * theta_mag (index c bm) (to13 bm) e.
 Proof.
-  intros Hp Ht. unfold Model.Beam.beam_inv, to13. cbn.
-  split; [reflexivity|]. split; [apply Proofs.C02_frame.polar_dir_unit|]. split; assumption.
+  unfold snell_of, Gen.Beam.calc_internal_theta_from_external_gen, theta_mag, Gen.Beam.snell_cost_gen.
+  rewrite !Rdiv_one, !Rmult_1_r. reflexivity.
 Qed.
 
-Lemma theta_external_ext n_along (s1 s2 : Gen.Beam.beam) :
-  Gen.Beam.b_phi s1 = Gen.Beam.b_phi s2 -> Gen.Beam.b_theta s1 = Gen.Beam.b_theta s2 ->
-  Gen.Beam.theta_external_gen n_along s1 = Gen.Beam.theta_external_gen n_along s2.
+(* what the cost function measures *)
+Lemma cost_is_residual n_along s e th :
+  Gen.Beam.snell_cost_gen n_along s e th =
+  Rabs (Rabs (sin e) - n_along (Model.Optics.normalize (Model.Fresnel.polar_dir (Gen.Beam.b_phi s) (signum e * th))) * sin th).
 Proof.
-  intros Hp Ht. unfold Gen.Beam.theta_external_gen, Gen.Beam.calc_external_theta_from_internal_gen. now rewrite Hp, Ht.
+  unfold Gen.Beam.snell_cost_gen, Model.Fresnel.polar_dir. rewrite !Rdiv_one, !Rmult_1_r. reflexivity.
 Qed.
+
+Lemma signum_cases e : (0 <= e /\ signum e = 1) \/ (e < 0 /\ signum e = -1).
+Proof. unfold signum. destruct (Rle_dec 0 e); [left | right]; split; lra. Qed.
 
 Theorem external_contract p b : In (p, (SBeamThetaExternal b, UDeg)) spec_table ->
-  exists f, get_setter snell_of compute_sign p = Some f /\ forall s v r M,
+  exists f, get_setter snell_of compute_sign p = Some f /\ forall s v r,
     let bm := get_beam b s in
-    let e := Rabs (v * (PI / 180)) in
+    let e := v * (PI / 180) in
     let n_along := index (s_crystal_setup s) bm in
-    let th := Proofs.C13_snell.theta_star nm n_along (to13 bm) e in
-    0 <= b_phi bm < 2 * PI -> - PI < b_theta bm <= PI ->
-    e <= M -> M < PI / 2 -> 0 <= th <= PI / 2 ->
+    let th := theta_mag n_along (to13 bm) e in
+    0 <= b_phi bm < 2 * PI ->
+    0 <= th <= PI / 2 ->
     Gen.Beam.snell_cost_gen n_along (to13 bm) e th <= r ->
     let bm' := get_beam b (f s v) in
-    b_theta bm' = th /\ b_phi bm' = b_phi bm /\
-    Rabs (sin e - n_along (Model.Optics.normalize (Model.Fresnel.polar_dir (b_phi bm') (b_theta bm'))) * sin (b_theta bm')) <= r /\
-    assoc (config_key (SBeamThetaExternal b)) (config_num (f s v)) = Some (round4 (b_theta bm' / (PI / 180))) /\
-    (sin e + r <= sin M -> Rabs (Gen.Beam.theta_external_gen n_along (to13 bm') - e) <= r / cos M).
+    (* stored angle: the magnitude with the sign of the request *)
+    b_theta bm' = signum e * th /\ (0 <= v -> 0 <= b_theta bm') /\ (v < 0 -> b_theta bm' <= 0) /\
+    b_phi bm' = b_phi bm /\
+    (* Snell's law within the residual, on the side of the azimuth plane the request points to *)
+    Rabs (Rabs (sin e) - n_along (Model.Optics.normalize (Model.Fresnel.polar_dir (b_phi bm') (b_theta bm'))) * sin (Rabs (b_theta bm'))) <= r /\
+    assoc (config_key (SBeamThetaExternal b)) (config_num (f s v)) = Some (round4 (b_theta bm' / (PI / 180))).
 Proof.
   intros Hin. destruct (setters_match snell_of compute_sign p _ _ Hin) as [f [Hf E]].
-  exists f. split; [exact Hf|]. intros s v r M bm e n_along th Hphi Hth HeM HM Hb Hc bm'.
-  assert (He0 : 0 <= e) by apply Rabs_pos.
+  exists f. split; [exact Hf|]. intros s v r bm e n_along th Hphi Hb Hc bm'.
   pose proof PI_RGT_0 as Hpi.
-  assert (Hsn : snell_of bm e (s_crystal_setup s) = th).
-  { unfold snell_of. fold n_along. apply Proofs.C13_snell.calc_internal_is_theta_star. exact He0. }
-  assert (Ht' : b_theta bm' = th /\ b_phi bm' = b_phi bm).
+  assert (Hsn : snell_of bm e (s_crystal_setup s) = signum e * th).
+  { unfold th, n_along. apply snell_of_is_signed_magnitude. }
+  assert (Hrange : - PI < signum e * th <= PI) by (destruct (signum_cases e) as [[_ ->] | [_ ->]]; lra).
+  assert (Ht' : b_theta bm' = signum e * th /\ b_phi bm' = b_phi bm).
   { unfold bm'. rewrite E. unfold bm, e in *. destruct s as [sg idl pm cr pp pw bw thr swp iwp df]; destruct b;
       cbn [ideal_set get_beam put_beam s_signal s_idler s_pump s_crystal_setup b_theta b_phi si_of] in *;
-      (split; [ rewrite norm_angle_signed_id; [exact Hsn | rewrite Hsn; lra] | apply norm_angle_id; exact Hphi ]). }
+      (split; [ rewrite norm_angle_signed_id; [exact Hsn | rewrite Hsn; exact Hrange] | apply norm_angle_id; exact Hphi ]). }
   destruct Ht' as [Et Ep].
-  split; [exact Et|]. split; [exact Ep|]. split.
-  { rewrite Et, Ep. apply (Proofs.C13_snell.residual_form nm n_along (to13 bm) e r Hc). }
+  assert (Hv : (0 <= v <-> 0 <= e) /\ (v < 0 <-> e < 0)) by (unfold e; split; split; intros; nra).
+  split; [exact Et|]. split.
+  { intros H0. rewrite Et. destruct (signum_cases e) as [[_ ->] | [Hn _]]; [lra | exfalso; destruct Hv as [[Hv1 _] _]; specialize (Hv1 H0); lra]. }
   split.
-  { pose proof (all_values_ok snell_of compute_sign) as Hall. rewrite Forall_forall in Hall.
-    pose proof (Hall _ Hin) as H. unfold value_entry_ok in H. cbn [fst snd] in H.
-    assert (G : value_guard snell_of (SBeamThetaExternal b) UDeg v s).
-    { cbn [value_guard si_of]. fold bm. fold e. rewrite Hsn. lra. }
-    specialize (H ltac:(discriminate) s v G). unfold bm'. rewrite E, H.
-    cbn [expected_value si_of]. fold bm. fold e. rewrite Hsn.
-    f_equal. f_equal. f_equal. symmetry. rewrite <- Et. unfold bm'. now rewrite E. }
-  intros HrM.
-  pose proof (to13_inv bm Hphi Hth) as Hinv.
-  pose proof (Proofs.C13_snell.after_set_theta_external nm n_along (to13 bm) e M Hinv (conj He0 HeM) HM Hb) as [A1 A2].
-  pose proof (Proofs.C13_snell.snell_roundtrip nm n_along (to13 bm) e r M Hinv (conj He0 HeM) HM Hb Hc HrM) as RT.
-  rewrite (theta_external_ext n_along (to13 bm') (Gen.Beam.set_theta_external_gen (Proofs.C13_snell.snell_inv_of nm n_along) (to13 bm) e)).
-  - exact RT.
-  - rewrite A2. cbn [to13 Gen.Beam.b_phi]. exact Ep.
-  - rewrite A1. cbn [to13 Gen.Beam.b_theta]. exact Et.
+  { intros H0. rewrite Et. destruct (signum_cases e) as [[Hn _] | [_ ->]]; [exfalso; destruct Hv as [_ [Hv2 _]]; specialize (Hv2 H0); lra | lra]. }
+  split; [exact Ep|]. split.
+  { rewrite Et, Ep.
+    assert (Hab : Rabs (signum e * th) = th) by (destruct (signum_cases e) as [[_ ->] | [_ ->]]; [rewrite Rmult_1_l; apply Rabs_right; lra | replace (-1 * th) with (- th) by ring; rewrite Rabs_Ropp; apply Rabs_right; lra]).
+    rewrite Hab. pose proof Hc as Hc'. rewrite cost_is_residual in Hc'. cbn [to13 Gen.Beam.b_phi] in Hc'. exact Hc'. }
+  pose proof (all_values_ok snell_of compute_sign) as Hall. rewrite Forall_forall in Hall.
+  pose proof (Hall _ Hin) as H. unfold value_entry_ok in H. cbn [fst snd] in H.
+  assert (G : value_guard snell_of (SBeamThetaExternal b) UDeg v s).
+  { cbn [value_guard si_of]. fold bm. fold e. rewrite Hsn. exact Hrange. }
+  specialize (H ltac:(discriminate) s v G). unfold bm'. rewrite E, H.
+  cbn [expected_value si_of]. fold bm. fold e. rewrite Hsn.
+  f_equal. f_equal. f_equal. symmetry. rewrite <- Et. unfold bm'. now rewrite E.
 Qed.
 End External.
